@@ -924,6 +924,50 @@ struct T16 {
         });
         break;
       }
+      case K_FREE_FUNCTIONS: {
+        // the generic (concept-layer) free functions called with views: they take their arguments by
+        // const reference and must treat a view like a value - in particular never use a COPY of a
+        // view as scratch (that copy shows the same memory). (The free rminus / lplus / lminus of the unmodified
+        // library do not compile with a view as first argument and are therefore not in the list.)
+        const G val = value_at(mi(c, r));
+        const G sv = value_at(mi(c, sr));
+        const auto a = rand_vec<S, G::Dof>(in, 0.7);
+        emit(c.exp, c.exp_bytes, smooth::composition(val, sv).coeffs());
+        emit(c.exp, c.exp_bytes, smooth::composition(val, sv, val).coeffs());
+        emit(c.exp, c.exp_bytes, smooth::composition(val, sv, sv, val).coeffs());
+        emit(c.exp, c.exp_bytes, smooth::composition(sv, val, sv).coeffs());
+        emit(c.exp, c.exp_bytes, smooth::rplus(val, a).coeffs());
+        emit(c.exp, c.exp_bytes, smooth::log(val));
+        emit(c.exp, c.exp_bytes, smooth::Ad(val));
+        emit(c.exp, c.exp_bytes, smooth::inverse(val).coeffs());
+        emit_scalar(c.exp, c.exp_bytes, static_cast<S>(smooth::dof(val)));
+        with_view(c, [&](const auto& v) {
+          with_src(c, [&](const auto& s) {
+            emit(c.out, c.out_bytes, smooth::composition(v, s).coeffs());
+            // multinary forms with the view FIRST: through mutable views only, so that the harness still builds
+            // against a library whose fold assigns to a copy of its first argument (seeded change S16-16 does
+            // not compile for a const view there); const views are covered in the other positions
+            if constexpr (std::is_same_v<std::decay_t<decltype(v)>, smooth::Map<const G>>) {
+              emit(c.out, c.out_bytes, smooth::composition(G(v), s, v).coeffs());
+              emit(c.out, c.out_bytes, smooth::composition(G(v), s, s, v).coeffs());
+            } else {
+              emit(c.out, c.out_bytes, smooth::composition(v, s, v).coeffs());
+              emit(c.out, c.out_bytes, smooth::composition(v, s, s, v).coeffs());
+            }
+            if constexpr (std::is_same_v<std::decay_t<decltype(s)>, smooth::Map<const G>>) {
+              emit(c.out, c.out_bytes, smooth::composition(G(s), v, s).coeffs());
+            } else {
+              emit(c.out, c.out_bytes, smooth::composition(s, v, s).coeffs());
+            }
+            emit(c.out, c.out_bytes, smooth::rplus(v, a).coeffs());
+            emit(c.out, c.out_bytes, smooth::log(v));
+            emit(c.out, c.out_bytes, smooth::Ad(v));
+            emit(c.out, c.out_bytes, smooth::inverse(v).coeffs());
+            emit_scalar(c.out, c.out_bytes, static_cast<S>(smooth::dof(v)));
+          });
+        });
+        break;
+      }
       case K_RVALUE_VIEW_OPS: {
         // Operators and const members on views that are RVALUES: a temporary Map, a moved-from Map, the
         // prvalue returned by a sub-part accessor of a mutable view. An "expiring" view still does not
